@@ -206,6 +206,16 @@ def check_default_case(st, cname, place, find, iname, make, d, d2, rank):
     if isinstance(got, NotPassed) or not impl.strict_eq(got, d):
         st.violation("default-lost-or-altered:%s" % ("falsy" if not d else "truthy"), "%s/%s: schema declares default %r at the position, parsed element carries %r" % (cname, iname, d, got), {**case, "got": repr(got)}, rank)
     # (a') a default declared at one position must not appear on an unrelated element (e.g. a shared definition)
+    if cname.startswith("typed.plain-twin-first"):
+        # the equal schemas that declare NO default must not have gained one (a class shared between equal object schemas
+        # is only shared as far as the schemas are equal)
+        for other in ("first", "last"):
+            try:
+                od = getattr(_prop(tree, other), "default", NP)
+            except Exception:
+                continue
+            if not isinstance(od, NotPassed):
+                st.violation("default-shared-with-unrelated-element", "%s/%s: property %r declares no default, its element carries %r (declared on property 'p')" % (cname, iname, other, od), case, rank)
     if cname.startswith("ref-shared"):
         for other in ("q", "r"):
             od = getattr(_prop(tree, other), "default", NP)
